@@ -287,11 +287,20 @@ impl<T: Debug + PartialEq, F: RealNumber, D: Distance<T, F>> CoverTree<T, F, D> 
         point_set: &mut Vec<DistanceSet<F>>,
         consumed_set: &mut Vec<DistanceSet<F>>,
     ) -> Node<F> {
-        if point_set.is_empty() {
+        if point_set.is_empty() && max_scale == top_scale && consumed_set.is_empty() {
+            // the whole data set is a single point: keep the "first child repeats its parent" shape
+            Node {
+                idx: p,
+                max_dist: F::zero(),
+                parent_dist: F::zero(),
+                children: vec![self.new_leaf(p)],
+                _scale: 100,
+            }
+        } else if point_set.is_empty() {
             self.new_leaf(p)
         } else {
             let max_dist = self.max(point_set);
-            let next_scale = (max_scale - 1).min(self.get_scale(max_dist));
+            let next_scale = max_scale.saturating_sub(1).min(self.get_scale(max_dist));
             if next_scale == std::i64::MIN {
                 let mut children: Vec<Node<F>> = Vec::new();
                 let mut leaf = self.new_leaf(p);
@@ -435,7 +444,7 @@ impl<T: Debug + PartialEq, F: RealNumber, D: Distance<T, F>> CoverTree<T, F, D> 
     }
 
     fn get_scale(&self, d: F) -> i64 {
-        if d == F::zero() {
+        if d <= F::zero() {
             std::i64::MIN
         } else {
             (self.inv_log_base * d.ln()).ceil().to_i64().unwrap()
